@@ -108,12 +108,9 @@ fn check(plan: &Plan, out: &RunOut) -> CheckOut {
     co.nontrivial = !v.recvs.is_empty();
     check_no_panic(&mut co, "C12", out);
     let mut judged = 0u64;
+    let variant_socks: BTreeMap<std::net::SocketAddr, u32> = (0..PER_RUN as u32).map(|j| (crate::reqs::client_addr(1000 + j), j)).collect();
     for q in &v.recvs {
-        let port = q.src.port() as u32;
-        if !(6000..6000 + PER_RUN as u32).contains(&port) {
-            continue;
-        }
-        let j = port - 6000;
+        let Some(&j) = variant_socks.get(&q.src) else { continue };
         let k = plan.p(&format!("v{}", j));
         judged += 1;
         let n_ok = q.answers.iter().filter(|&&s| matches!(v.sends[s].verdict, Some(Ok(_)))).count();
